@@ -178,9 +178,9 @@ def worker(shard, nshards, qs, thorough, r):
         live = {vd: vs for vd, (label, vs) in states.items() if vd not in bad}
         if sqlite_ok and live:
             dead_on_sqlite = set()
-            # (quick tier: the 576 three-item join chains run on every database with <= 1 row per table; NULL extension of
+            # (quick tier: the three-item join chains and the derived-table family run on every database with <= 1 row per table; NULL extension of
             #  unmatched rows already shows there; the thorough tier uses the full bound)
-            for data in sqlite_dbs(tables, 1 if (not thorough and "chain3" in tags) else None):
+            for data in sqlite_dbs(tables, 1 if (not thorough and ("chain3" in tags or "dt" in tags)) else None):
                 if not live:
                     break
                 s = oe.Sqlite({t: SCHEMA[t] for t in tables}, data)
